@@ -61,7 +61,7 @@ type c18Cfg struct {
 	Nums   []int             `dials:"znums"`
 	Labels map[string]string `dials:"zlabels"`
 	// (a pointer to a struct with a non-nil default: every re-stack starts from a copy of it, not from it)
-	DB     *c18DB            `dials:"zdb"`
+	DB *c18DB `dials:"zdb"`
 	// a set: ez lets the file spell it as a list (Params.DisableAutoSetToSlice is off)
 	Blocked map[string]struct{} `dials:"zblocked"`
 	Need    string              `dials:"zneed"`
